@@ -116,10 +116,11 @@ Proof.
     unfold bind at 1. rewrite E2. unfold bind at 1. unfold modw at 1.
     pose proof (finish_frame j st i Hj w1) as Eq. rewrite E2 in Eq. cbn [snd] in Eq. unfold obsP in Eq.
     inversion Eq as [[Es Ep]].
-    destruct (IH _ K3) as (w' & E' & K' & Es' & Ep'); [cbn; rewrite Ep; destruct E1 as [_ ->]; exact Hp|].
-    exists w'. split; [exact E' | split; [exact K'|]]. cbn in Es', Ep'. destruct E1. split; congruence.
-  - destruct (IH _ K1) as (w' & E' & K' & Es' & Ep'); [destruct E1 as [_ ->]; exact Hp|].
-    exists w'. destruct E1. split; [exact E' | split; [exact K' | split; congruence]].
+    destruct E1 as [E1s E1p].
+    destruct (IH _ K3) as (w' & E' & K' & Es' & Ep'); [cbn; congruence|].
+    exists w'. split; [exact E' | split; [exact K'|]]. cbn in Es', Ep'. split; congruence.
+  - destruct E1 as [E1s E1p]. destruct (IH _ K1) as (w' & E' & K' & Es' & Ep'); [congruence|].
+    exists w'. split; [exact E' | split; [exact K' | split; congruence]].
 Qed.
 
 (* ---------- reap and a STOPPING process: still STOPPING, or reaped and STOPPED *)
@@ -142,18 +143,21 @@ Proof.
     unfold bind at 1. rewrite E2. unfold bind at 1. unfold modw at 1.
     destruct (Nat.eq_dec j i) as [-> | Hj].
     + (* the child of i itself *)
+      destruct E1 as [E1s E1p].
+      assert (Hs1 : sts w1 i = STOPPING) by congruence.
       assert (Hk : killing (procs w1 i) = true).
-      { destruct (k_pi w1 K1 i) as (a & _). apply a. destruct E1 as [-> _]. exact Hs. }
-      destruct (stopping_reaped_then_stopped U pconfs w1 i st ltac:(destruct E1 as [-> _]; exact Hs) Hk)
+      { destruct (k_pi w1 K1 i) as (a & _). apply a. exact Hs1. }
+      destruct (stopping_reaped_then_stopped U pconfs w1 i st Hs1 Hk)
         as (w2' & E2' & _ & Es2 & Ep2 & _).
       rewrite E2 in E2'. inversion E2'; subst w2'.
       destruct (reap_untouched i f _ K3) as (w' & E' & K' & Es' & Ep'); [exact Ep2|].
       exists w'. split; [exact E' | split; [exact K'|]]. right. cbn in Es', Ep'. split; congruence.
     + pose proof (finish_frame j st i Hj w1) as Eq. rewrite E2 in Eq. cbn [snd] in Eq. unfold obsP in Eq.
       inversion Eq as [[Es Ep]].
-      destruct (IH _ K3) as (w' & E' & K' & H'); [cbn; rewrite Es; destruct E1 as [-> _]; exact Hs|].
+      destruct E1 as [E1s E1p].
+      destruct (IH _ K3) as (w' & E' & K' & H'); [cbn; congruence|].
       exists w'. auto.
-  - destruct (IH _ K1) as (w' & E' & K' & H'); [destruct E1 as [-> _]; exact Hs|].
+  - destruct E1 as [E1s E1p]. destruct (IH _ K1) as (w' & E' & K' & H'); [congruence|].
     exists w'. auto.
 Qed.
 
